@@ -268,6 +268,31 @@ func runC15(col *Collector, tier string, seed int64) {
 			}
 		}
 	}
+	// sequences of imports of different formats that touch the same entries: every order, every main format
+	seqDocs := map[string]string{
+		"a.json": "{\"tasks\": {\"shared\": {\"command\": [\"echo json\"], \"env\": {\"K\": \"j\"}}, \"tj\": {\"command\": [\"true\"]}}, \"contexts\": {\"c\": {\"env\": {\"A\": \"1\"}}}}",
+		"b.yaml": "tasks:\n  shared:\n    command: [\"echo yaml\"]\n    env: {K: y, L: y}\n  ty: {command: [\"true\"]}\ncontexts:\n  c:\n    env: {B: \"2\"}\n",
+		"c.toml": "[tasks.shared]\ncommand = [\"echo toml\"]\n[tasks.shared.env]\nK = \"t\"\n[tasks.tt]\ncommand = [\"true\"]\n",
+		"d.yaml": "tasks:\n  shared:\n    env: {M: z}\n  tj:\n    description: redefined in yaml\n",
+	}
+	orders := [][]string{{"a.json", "b.yaml"}, {"b.yaml", "a.json"}, {"a.json", "d.yaml"}, {"a.json", "b.yaml", "c.toml"}, {"c.toml", "d.yaml", "a.json"}, {"b.yaml", "c.toml", "d.yaml"}, {"a.json", "c.toml", "b.yaml", "d.yaml"}}
+	for _, ord := range orders {
+		var q []string
+		for _, f := range ord {
+			q = append(q, fmt.Sprintf("%q", f))
+		}
+		list := strings.Join(q, ", ")
+		mains := map[string]string{
+			"yaml": "import: [" + list + "]\ntasks:\n  shared: {command: [\"echo main\"]}\n  t: {command: [\"true\"]}\n",
+			"json": "{\"import\": [" + list + "], \"tasks\": {\"shared\": {\"command\": [\"echo main\"]}, \"t\": {\"command\": [\"true\"]}}}",
+			"toml": "import = [" + list + "]\n[tasks.shared]\ncommand = [\"echo main\"]\n[tasks.t]\ncommand = [\"true\"]\n",
+			"yaml-bare": "import: [" + list + "]\n",
+		}
+		for mf, text := range mains {
+			format := strings.TrimSuffix(mf, "-bare")
+			add(loadCase{desc: "imports " + strings.Join(ord, " then "), format: format, text: text, files: seqDocs, tasks: []string{"shared", "t", "tj"}}, "import-sequence")
+		}
+	}
 	// env_file contents
 	envs := []string{"A=b\n", "\n", "A=b\n\nC=d\n", "NOEQUALS\n", "=x\n", "A=b=c\n", "A=\n", "  \n", "# comment\nA=b\n", "A=b\r\nC=d\r\n", "A=üñí\n", "A=b", strings.Repeat("X", 70000) + "=1\n", "A=" + strings.Repeat("y", 70000) + "\n", "\x00=\x00\n", "A=b\n=\n=\n"}
 	for _, e := range envs {
